@@ -179,6 +179,10 @@ COMPONENTS = [
               distinct_by_construction=True, exhaustive=True,
               describe='container chains of every depth 1..64 with one located field '
                        'rewritten (depth x pattern x leaf x mark x mode)'),
+    Component('uniform-faults', check, cases=D.uniform_fault_cases,
+              distinct_by_construction=True, exhaustive=True,
+              describe='container chains (16 depths x 6 patterns x 2 keys x 3 leaves) '
+                       'with one rewrite applied to every located field of one kind'),
     Component('deep-random', check, strategy=D.deep_random_cases,
               budget={'quick': 4800, 'thorough': 96000},
               describe='random chains of explicit depth 1..64 with 1-2 faults'),
